@@ -131,6 +131,13 @@ class Report:
         cov["known_findings_hit"] = self.known_hits
         cov["inconclusive"] = self.inconclusive
         cov["harness_errors"] = self.harness_errors
+        xp = cov.get("crosshair_paths")
+        if xp and xp["explored"] and self.pid in XH_PRIMARY:
+            # E-X checks: a case is one execution path explored by CrossHair (measured by the hook in harness/_h.py); non-trivial =
+            # the path ran to the postcondition and was confirmed there (aborted / ignored / twin paths are not counted)
+            cov["evaluations"] = xp["explored"]
+            cov["distinct_nontrivial"] = xp["confirmed"]
+            cov["rule"] = (cov.get("rule") or "") + " || counts: evaluations = execution paths explored by CrossHair over all conditions (each path is a distinct decision sequence of the symbolic parameters); distinct_nontrivial = paths of non-twin conditions that reached the postcondition and were confirmed"
         if self.inconclusive:
             cov["exhaustive"] = False
         if not cov["samples"]:
@@ -167,6 +174,9 @@ class Report:
             flush=True,
         )
         return code
+
+
+XH_PRIMARY = {"C02", "C03", "C04", "C07", "C09", "C10", "C11", "C12", "C13", "C14", "C15", "C16", "C19"}
 
 
 def _match_val(actual, expected) -> bool:
